@@ -1087,6 +1087,27 @@ func (s *Session) input(seg *segment) error {
 }
 
 func (s *Session) inputData(seg *segment) error {
+	if !s.isClient && seg.metadata.Protocol() == openSessionRequest && s.isState(sessionAttached) {
+		// Check user quota if we can identify the user. This happens before
+		// the payload that came with the open session request is queued,
+		// because the application may already be reading from the session.
+		// Nothing of a refused session may reach the application.
+		if userName := s.UserName(); userName != "" {
+			quotaOK, err := s.checkQuota(userName)
+			if err != nil {
+				log.Debugf("%v checkQuota() failed: %v", s, err)
+			}
+			if !quotaOK {
+				s.oLock.Lock()
+				s.status = statusQuotaExhausted
+				s.oLock.Unlock()
+				log.Debugf("Closing %v because user %s used all the quota", s, userName)
+				s.Close()
+				return nil
+			}
+		}
+	}
+
 	switch s.transportProtocol {
 	case common.StreamTransport:
 		// Deliver the segment directly to recvQueue.
@@ -1147,26 +1168,7 @@ func (s *Session) inputData(seg *segment) error {
 	if !s.isClient && seg.metadata.Protocol() == openSessionRequest {
 		if s.isState(sessionAttached) {
 			// Server needs to send open session response.
-			// Check user quota if we can identify the user.
 			s.oLock.Lock()
-			if userName := s.UserName(); userName != "" {
-				quotaOK, err := s.checkQuota(userName)
-				if err != nil {
-					log.Debugf("%v checkQuota() failed: %v", s, err)
-				}
-				if !quotaOK {
-					s.status = statusQuotaExhausted
-					log.Debugf("Closing %v because user %s used all the quota", s, userName)
-					// The payload that came with the open session request is
-					// already queued. Nothing of a refused session may reach
-					// the application.
-					s.recvQueue.DeleteAll()
-					s.recvBuf.DeleteAll()
-					s.oLock.Unlock()
-					s.Close()
-					return nil
-				}
-			}
 			seg4 := &segment{
 				metadata: &sessionStruct{
 					baseStruct: baseStruct{
